@@ -75,6 +75,14 @@ def Coder.init (id : FilterId) (enc : Bool) (next : Next) (startOffset : BitVec 
   else some { id := id, isEncoder := enc, next := next, endWasReached := false, nowPos := startOffset,
               allocated := 2 * id.unfilteredMax, pos := 0, filtered := 0, size := 0, buffer := [], st := X86State.init }
 
+/-- `lzma_simple_coder_init` + per-filter init on an already allocated coder of the same filter (handle reuse): `now_pos`, `is_encoder`,
+    `end_was_reached`, `pos`, `filtered`, `size` and the x86 state are reset; `allocated` is kept; the stale bytes of `buffer[]` are
+    unreachable because `size = 0`. -/
+def Coder.reinit (prev : Coder) (enc : Bool) (next : Next) (startOffset : BitVec 32) : Option Coder :=
+  if startOffset.toNat % prev.id.alignment ≠ 0 then none
+  else some { prev with isEncoder := enc, next := next, endWasReached := false, nowPos := startOffset,
+                        pos := 0, filtered := 0, size := 0, buffer := [], st := X86State.init }
+
 /-- `copy_or_code`: copies `min(|inp|, cap)` bytes and updates `end_was_reached`. Returns (copied, coder). -/
 def copyOrCode (c : Coder) (inp : List UInt8) (cap : Nat) (action : Action) : List UInt8 × Coder :=
   let n := min inp.length cap
